@@ -18,7 +18,11 @@ CHECK = 'check_case05'
 RULE = ('random sequential architectures of Conv1d (stride/dilation/padding), AvgPool1d, Linear and every '
         'supported element-wise activation (depth 1-4, Flatten+Linear head, optional final activation), one '
         'quarter purely affine; alphabets 2-4, length 4-10, 1-2 examples, 1-3 references (one-hot / mutated '
-        'copies / dyadic backgrounds / dinucleotide_shuffle), every batch size; half exact mode, half '
+        'copies / dyadic backgrounds / dinucleotide_shuffle; reference tensors with an n_shuffles argument below/equal/'
+        'above their count, 21-23 references under the default), every batch size; a fifth of the cases are call '
+        'sequences in one freshly reloaded module (earlier calls with additional_nonlinear_ops overriding or adding '
+        'rules on the same / another model, plain and raising calls on the same model object, then the checked call), '
+        'a tenth register Softsign/Tanhshrink/Hardswish/Hardtanh with the library rule; half exact mode, half '
         'co-simulation mode; non-trivial = some activation whose two halves differ on a unit, or an affine '
         'model whose example differs from a reference; cases with some |delta_in| in [1e-9, 1e-4] are '
         'excluded and counted (hist key "band-excluded")')
